@@ -451,12 +451,14 @@ class TreeGen:
         extra_leaves: tuple[str, ...] = (),
         detach_rate: float = 0.0,
         refs: bool = False,
+        rev_sources: bool = False,
         bombs: bool = False,
     ) -> None:
         self.bombs = bombs
         self.extra_leaves = extra_leaves
         self.detach_rate = detach_rate
         self.refs = refs
+        self.rev_sources = rev_sources
         self.leaves = leaves
         self.width = width
         self.share = share
@@ -476,7 +478,7 @@ class TreeGen:
         if self.origin_rate <= 0:
             return st.just(["no"])
         k = max(1, round(1 / self.origin_rate) - 1)
-        return st.one_of(*([st.just(["no"])] * k), og.st_origin(self.origin_index, allow_no=False))
+        return st.one_of(*([st.just(["no"])] * k), og.st_origin(self.origin_index, allow_no=False, rev=self.rev_sources))
 
     def props(self, cn: str):
         from hypothesis import strategies as st
